@@ -2,7 +2,7 @@
 REG_DRAFT = dict(
     engine='E1-enum',
     technique='exhaustive enumeration of multi-file projects (import graph x `as` choice per edge x referenced item x access form), each checked with the real `garden check` and `garden run` against a three-line visibility reference',
-    text="Projects of 2 files (quick: every subset of the 4 directed edges incl. self-imports, every with/without-`as` choice per edge: 81 graphs) and 3 files (thorough: every subset of the 6 directed edges x every `as` choice: 729 graphs). Every file defines a public and a private function, enum, struct and method (thorough, 2 files: additionally all 16 public/private masks of two functions, an enum and a struct). The main file makes exactly one reference per program to a (file, item) as `ns::item` or unqualified: function call, enum variant, enum type in a hint, struct literal, method call. Reference: visible(file, item, form) <=> main imports file in the style of the form and item is public. Oracle: a visible reference evaluates under `garden run` and gets no error-severity diagnostic on its line from `garden check --json`; a reference to a non-public definition of another file is an error in both tools; every project finishes within the wall cap (cyclic and self imports must not loop).",
+    text="Projects of 2 files (every subset of the 4 directed edges incl. self-imports, every with/without-`as` choice per edge: 81 graphs; quick leaves out f1 importing itself: 27 graphs) and 3 files (quick: main imports f1, every subset and `as` choice of the edges between f1 and f2: 18 graphs; thorough: every subset of the 6 directed edges x every `as` choice: 729 graphs). Every file defines a public and a private function, enum, struct and method (thorough, 2 files without self-imports: additionally all 16 public/private masks of two functions, an enum and a struct). The main file makes exactly one reference per program to a (file, item) as `ns::item` or unqualified: function call, enum variant, enum type in a hint, struct literal, method call; in addition every imported file reachable from main makes one function reference to each file it imports (main calls it through a chain of public functions). Reference: visible(file, item, form) <=> main imports file in the style of the form and item is public. Oracle: a visible reference evaluates under `garden run` and gets no error-severity diagnostic on its line from `garden check --json`; a reference to a non-public definition of another file is an error in both tools; every project finishes within the wall cap (cyclic and self imports must not loop).",
     note='Public items of files that main does not import directly, and public items accessed in the other form than the import style, are only recorded (the statement does not say). Types have no `ns::` syntax, so type, struct-literal and method references exist in the unqualified form only.',
     design_ref='DESIGN.md §6 C34',
 )
@@ -19,16 +19,16 @@ CAP = 40.0
 
 
 # ---- the reference ---------------------------------------------------------------------------------------------------------------
-def visible(graph, target, public, form):
-    """graph: {(src, dst): 'as' | 'bare'}; main = 0. A reference from main is visible iff main imports `target` in the style the form
-    needs and the item is public. (Types/structs/methods have only the unqualified form, which either import style serves.)"""
-    style = graph.get((0, target))
+def visible(graph, site, target, public, form):
+    """graph: {(src, dst): 'as' | 'bare'}. A reference written in file `site` is visible iff `site` imports `target` in the style the
+    form needs and the item is public. (Types/structs/methods have only the unqualified form, which either import style serves.)"""
+    style = graph.get((site, target))
     return style is not None and public and (form == "type-name" or style == {"qualified": "as", "unqualified": "bare"}[form])
 
 
-def must_be_error(target, public):
+def must_be_error(site, target, public):
     """Reaching a non-public definition of another file is an error whatever the graph."""
-    return target != 0 and not public
+    return target != site and not public
 # -----------------------------------------------------------------------------------------------------------------------------------
 
 
@@ -44,8 +44,8 @@ def item_names(fname):
 
 
 def file_items(fname, mask=None):
-    """Item definitions of a file. mask=None: one public and one private of each kind. mask=(a, b, e, s): two functions, an enum and a struct
-    with those public flags (item names keep the pub/priv spelling of the default layout: first function = pubf slot, second = privf slot)."""
+    """Item definitions of a file. mask=None: one public and one private of each kind. mask=(a, b, e, s): two functions, an enum and a
+    struct with those public flags."""
     n = item_names(fname)
     pub = lambda flag: "public " if flag else ""
     if mask is None:
@@ -58,7 +58,7 @@ def file_items(fname, mask=None):
             f"{pub(e)}enum {cap(fname)}E {{ {cap(fname)}V, {cap(fname)}VW(Int) }}\n{pub(s)}struct {cap(fname)}S {{ x: Int }}\n")
 
 
-def references(target, mask=None):
+def references(target, mask=None, funs_only=False):
     """[(kind, public, form, expression source with @NS@ for the alias)] for items of file index `target`."""
     fname = FILES[target]
     out = []
@@ -67,6 +67,8 @@ def references(target, mask=None):
         for public in (True, False):
             out.append(("fun", public, "qualified", f"@NS@::{n['fun', public]}()"))
             out.append(("fun", public, "unqualified", f"{n['fun', public]}()"))
+            if funs_only:
+                continue
             out.append(("enum variant", public, "qualified", f"@NS@::{n['variant', public]}"))
             out.append(("enum variant", public, "unqualified", f"{n['variant', public]}"))
             out.append(("enum type", public, "type-name", f"@HINT@List<{n['enum', public]}>"))
@@ -78,27 +80,41 @@ def references(target, mask=None):
         for nm, public in ((f"{fname}_fa", a), (f"{fname}_fb", b)):
             out.append(("fun", public, "qualified", f"@NS@::{nm}()"))
             out.append(("fun", public, "unqualified", f"{nm}()"))
-        out.append(("enum variant", e, "qualified", f"@NS@::{P}V"))
-        out.append(("enum variant", e, "unqualified", f"{P}V"))
-        out.append(("enum type", e, "type-name", f"@HINT@List<{P}E>"))
-        out.append(("struct literal", s, "type-name", f"{P}S{{ x: 1 }}"))
+        if not funs_only:
+            out.append(("enum variant", e, "qualified", f"@NS@::{P}V"))
+            out.append(("enum variant", e, "unqualified", f"{P}V"))
+            out.append(("enum type", e, "type-name", f"@HINT@List<{P}E>"))
+            out.append(("struct literal", s, "type-name", f"{P}S{{ x: 1 }}"))
     return out
 
 
-def graph_class(graph, nfiles, target):
-    if target == 0:
-        return "self"
-    reach = {0}
-    frontier = [0]
+def adjacency(graph):
     adj = {}
-    for (a, b) in graph:
-        adj.setdefault(a, set()).add(b)
+    for (a, b) in sorted(graph):
+        adj.setdefault(a, []).append(b)
+    return adj
+
+
+def shortest_paths(graph, src=0):
+    """{node: [src, ..., node]} by BFS in index order (deterministic)."""
+    adj = adjacency(graph)
+    paths = {src: [src]}
+    frontier = [src]
     while frontier:
-        x = frontier.pop()
-        for y in adj.get(x, ()):
-            if y not in reach:
-                reach.add(y)
-                frontier.append(y)
+        nxt = []
+        for x in frontier:
+            for y in adj.get(x, ()):
+                if y not in paths:
+                    paths[y] = paths[x] + [y]
+                    nxt.append(y)
+        frontier = nxt
+    return paths
+
+
+def graph_class(graph, site, target):
+    if target == site:
+        return "self"
+    adj = adjacency(graph)
 
     def reaches(src, dst):
         seen, fr = set(), [src]
@@ -111,14 +127,33 @@ def graph_class(graph, nfiles, target):
                     seen.add(y)
                     fr.append(y)
         return False
-    if (0, target) in graph:
-        return "cycle" if reaches(target, 0) or (target, target) in graph else "direct"
-    if target in reach:
-        return "transitive"
-    return "not loaded"
+    if (site, target) in graph:
+        return "cycle" if reaches(target, site) or (target, target) in graph else "direct"
+    return "transitive" if reaches(site, target) else "no import path"
 
 
-def project_files(graph, nfiles, ref_line, masks):
+def call_of(graph, a, b, fn):
+    """Source of a call, written in file a, of public function fn of file b (a imports b)."""
+    return (ALIAS[FILES[b]] + "::" if graph[(a, b)] == "as" else "") + fn + "()"
+
+
+def project_files(c):
+    """{file name: text}; the reference is the last line of the site file; main's last line prints the marker."""
+    graph, nfiles, site, path = c["graph"], c["nfiles"], c["site"], c["path"]
+    e = c["expr"].replace("@NS@", ALIAS[FILES[c["target"]]])
+    tail = {}
+    if site == 0:
+        if e.startswith("@HINT@"):
+            tail[0] = f'let ref_v: {e[len("@HINT@"):]} = [] println("REF_OK:" ^ string_repr(ref_v))'
+        else:
+            tail[0] = f'println("REF_OK:" ^ string_repr({e}))'
+    else:
+        tail[site] = f"public fun {FILES[site]}_site(): Int {{ {e} }}"
+        for i in range(len(path) - 2, 0, -1):
+            nxt = path[i + 1]
+            tail[path[i]] = f"public fun {FILES[path[i]]}_hop(): Int {{ {call_of(graph, path[i], nxt, FILES[nxt] + ('_site' if nxt == site else '_hop'))} }}"
+        nxt = path[1]
+        tail[0] = f'println("REF_OK:" ^ string_repr({call_of(graph, 0, nxt, FILES[nxt] + ("_site" if nxt == site else "_hop"))}))'
     out = {}
     for i in range(nfiles):
         fname = FILES[i]
@@ -126,15 +161,12 @@ def project_files(graph, nfiles, ref_line, masks):
         for (a, b), style in sorted(graph.items()):
             if a == i:
                 imports += f'import "./{FILES[b]}.gdn"' + (f" as {ALIAS[FILES[b]]}" if style == "as" else "") + "\n"
-        body = file_items(fname, masks.get(i))
-        if i == 0:
-            body += ref_line + "\n"
-        out[fname + ".gdn"] = imports + body
+        out[fname + ".gdn"] = imports + file_items(fname, c["masks"].get(i)) + (tail[i] + "\n" if i in tail else "")
     return out
 
 
-def graphs(nfiles, self_loops):
-    edges = [(a, b) for a in range(nfiles) for b in range(nfiles) if a != b or self_loops]
+def graphs(nfiles, edges):
+    """Every subset of `edges`, every as/bare choice per chosen edge."""
     for k in range(len(edges) + 1):
         for sub in itertools.combinations(edges, k):
             for styles in itertools.product(("as", "bare"), repeat=len(sub)):
@@ -144,49 +176,55 @@ def graphs(nfiles, self_loops):
 def run(ctx):
     root = os.path.join(ctx.scratch, "c34")
     os.makedirs(root, exist_ok=True)
-    families = [("2 files", 2, True, [None])]
-    if not ctx.quick:
-        families.append(("2 files, masks", 2, True, list(itertools.product((True, False), repeat=4))))
-        families.append(("3 files", 3, False, [None]))
-    ctx.bound("families", [f[0] for f in families])
+    two = [(a, b) for a in range(2) for b in range(2)]
+    # (name, number of files, graphs, masks)
+    if ctx.quick:
+        families = [("2 files, no self-import of f1", 2, list(graphs(2, [(0, 0), (0, 1), (1, 0)])), [None]),
+                    ("3 files, main imports f1", 3, [{**g, (0, 1): st} for st in ("as", "bare") for g in graphs(3, [(1, 2), (2, 1)])], [None])]
+    else:
+        families = [("2 files", 2, list(graphs(2, two)), [None]),
+                    ("2 files, no self-imports, all 16 public/private masks", 2, list(graphs(2, [(0, 1), (1, 0)])), list(itertools.product((True, False), repeat=4))),
+                    ("3 files", 3, list(graphs(3, [(a, b) for a in range(3) for b in range(3) if a != b])), [None])]
+    ctx.bound("families", {f[0]: len(f[2]) for f in families})
     only_graphs = int(os.environ.get("GV_C34_MAXGRAPHS", "0"))
 
-    cases = []      # dict(graph, nfiles, target, kind, public, form, expr, masks)
+    cases = []
     ngraphs = 0
-    for fam, nfiles, loops, masklist in families:
-        for gi, graph in enumerate(graphs(nfiles, loops)):
+    for fam, nfiles, glist, masklist in families:
+        for gi, graph in enumerate(glist):
             if only_graphs and gi >= only_graphs:
                 ctx.cap(f"GV_C34_MAXGRAPHS={only_graphs}")
                 break
             ngraphs += 1
+            paths = shortest_paths(graph)
             for mask in masklist:
                 masks = {i: mask for i in range(1, nfiles)} if mask is not None else {}
-                for target in range(nfiles):
-                    style = graph.get((0, target))
-                    for kind, public, form, expr in references(target, mask if target != 0 else None):
-                        if target == 0 and not (form == "qualified" and style == "as"):
-                            continue          # own items are in scope unqualified anyway; only `m0::item` goes through the import
-                        if form == "qualified" and style != "as":
-                            continue          # no alias to write the reference with
-                        cases.append({"fam": fam, "graph": graph, "nfiles": nfiles, "target": target, "kind": kind, "public": public, "form": form, "expr": expr, "masks": masks})
+                for site in sorted(paths):
+                    for target in range(nfiles):
+                        style = graph.get((site, target))
+                        for kind, public, form, expr in references(target, mask if target != 0 else None, funs_only=site != 0):
+                            if target == site and not (form == "qualified" and style == "as"):
+                                continue          # own items are in scope unqualified anyway; only `ns::item` goes through the import
+                            if form == "qualified" and style != "as":
+                                continue          # no alias to write the reference with
+                            if site != 0 and style is None:
+                                continue          # imported files only reference the files they import
+                            cases.append({"fam": fam, "graph": graph, "nfiles": nfiles, "site": site, "path": paths[site], "target": target, "kind": kind, "public": public, "form": form,
+                                          "expr": expr, "masks": masks})
     ctx.bound("import_graphs", ngraphs)
 
-    def ref_line(c):
-        e = c["expr"].replace("@NS@", ALIAS[FILES[c["target"]]])
-        if e.startswith("@HINT@"):
-            return f'let ref_v: {e[len("@HINT@"):]} = [] println("REF_OK:" ^ string_repr(ref_v))'
-        return f'println("REF_OK:" ^ string_repr({e}))'
-
+    if os.environ.get("GV_COUNT_ONLY"):      # development aid: size of the enumeration without running it
+        raise Machinery(f"count only: {2 * len(cases)} processes")
     def do_case(ic):
         i, c = ic
         d = os.path.join(root, f"p{i}")
         os.makedirs(d, exist_ok=True)
-        files = project_files(c["graph"], c["nfiles"], ref_line(c), c["masks"])
+        files = project_files(c)
         for name, text in files.items():
             with open(os.path.join(d, name), "w") as fh:
                 fh.write(text)
         out = {}
-        for tool, args in (("check", ["check", "--json", "main.gdn"]), ("run", ["run", "main.gdn"])):
+        for tool, args in (("check", ["check", "--json", FILES[c["site"]] + ".gdn"]), ("run", ["run", "main.gdn"])):
             r = clijobs.run(ctx.binary, args, cwd=d, stdin=b"", timeout=CAP)
             if r["timeout"]:
                 r = clijobs.run(ctx.binary, args, cwd=d, stdin=b"", timeout=3 * CAP)
@@ -199,19 +237,20 @@ def run(ctx):
 
     seen_ok = seen_refused = 0
     crashes = {}      # (nfiles, frozenset(graph items), tool, kind) -> detail
-    fails = {}        # (kind, public, form, what) -> {graph class: detail}
-    demanded = {}     # (kind, public, form) -> set of graph classes on which a verdict was demanded
+    fails = {}        # (where, kind, public, form, what) -> {graph class: detail}
+    demanded = {}     # (where, kind, public, form) -> set of graph classes on which a verdict was demanded
     gdesc = lambda g: ", ".join(sorted(f"{FILES[a]} -> {FILES[b]} ({'as ns' if st == 'as' else 'unqualified'})" for (a, b), st in g.items())) or "no imports"
     for c, r in zip(cases, res):
         files = r["files"]
-        refline_no = files["main.gdn"].count("\n")          # 1-based number of the last line
-        gclass = graph_class(c["graph"], c["nfiles"], c["target"])
-        vis = visible(c["graph"], c["target"], c["public"], c["form"])
-        err = must_be_error(c["target"], c["public"])
+        site_file = FILES[c["site"]] + ".gdn"
+        refline_no = files[site_file].count("\n")          # 1-based number of the last line of the file holding the reference
+        gclass = graph_class(c["graph"], c["site"], c["target"])
+        vis = visible(c["graph"], c["site"], c["target"], c["public"], c["form"])
+        err = must_be_error(c["site"], c["target"], c["public"])
         form = "unqualified" if c["form"] == "type-name" else c["form"]
-        key = (c["kind"], c["public"], form)
-        detail = {"files": files, "graph": gdesc(c["graph"])}
-        # -- tools end by themselves
+        where = "from main" if c["site"] == 0 else "from an imported file"
+        key = (where, c["kind"], c["public"], form)
+        detail = {"files": files, "graph": gdesc(c["graph"]), "commands": [f"garden check --json {site_file}", "garden run main.gdn"]}
         dead = False
         for tool in ("check", "run"):
             k = clijobs.failure_kind(r[tool])
@@ -221,7 +260,6 @@ def run(ctx):
         if dead:
             ctx.outcome("tool dies")
             continue
-        # -- check verdict: error-severity diagnostic on the reference line
         diags = []
         for chunk in r["check"]["out"].split("\n"):
             chunk = chunk.strip()
@@ -236,35 +274,36 @@ def run(ctx):
         run_err = (not run_ok) and bool(r["run"]["err"].strip())
         if not run_ok and not run_err:
             raise Machinery(f"`garden run` neither printed the marker nor an error: {r['run']['out']!r} {files['main.gdn']!r}")
-        detail.update(check_stdout=r["check"]["out"][-500:], run_stdout=r["run"]["out"][-200:], run_stderr=r["run"]["err"][-400:])
+        detail.update(check_stdout=r["check"]["out"][-500:], run_stdout=r["run"]["out"][-200:], run_stderr=r["run"]["err"][-500:])
         if other_err:
-            ctx.outcome(f"check reports an error elsewhere in main ({gclass})")
+            ctx.outcome(f"check reports an error on another line ({where}, {gclass})")
         if vis:
             demanded.setdefault(key, set()).add(gclass)
             seen_ok += run_ok and not check_err
             tools = [t for t, bad in (("check", bool(check_err)), ("run", not run_ok)) if bad]
             if tools:
                 fails.setdefault(key + (f"visible reference refused by {' and '.join(tools)}",), {}).setdefault(gclass, detail)
-            ctx.outcome(f"visible: {'ok' if not tools else 'refused'}")
+            ctx.outcome(f"visible {where}: {'ok' if not tools else 'refused'}")
         elif err:
-            demanded.setdefault(key, set()).add(gclass)
+            if gclass != "no import path":
+                demanded.setdefault(key, set()).add(gclass)
             seen_refused += (not run_ok) and bool(check_err)
             tools = [t for t, bad in (("check", not check_err), ("run", run_ok)) if bad]
             if tools:
                 fails.setdefault(key + (f"non-public definition accepted by {' and '.join(tools)}",), {}).setdefault(gclass, detail)
-            ctx.outcome(f"non-public: {'refused by both' if not tools else 'reachable'}")
+            ctx.outcome(f"non-public {where}: {'refused by both' if not tools else 'reachable'}")
         else:
-            ctx.outcome(f"not demanded ({'own item via self-import' if c['target'] == 0 else 'public, ' + gclass + ' import, ' + form}): "
+            ctx.outcome(f"not demanded ({'own item via self-import' if c['target'] == c['site'] else 'public, ' + gclass + ', ' + form}): "
                         f"check {'error' if check_err else 'ok'}, run {'ok' if run_ok else 'error'}")
-    cli = "garden check --json main.gdn; garden run main.gdn"
-    for (kind, public, form, what), classes in sorted(fails.items()):
-        head = f"{kind} ({'public' if public else 'private'}, {form})"
-        if set(classes) >= demanded[(kind, public, form)] and len(classes) > 1:
-            ex = classes[sorted(classes)[0]]
+    for (where, kind, public, form, what), classes in sorted(fails.items()):
+        head = f"{kind} ({'public' if public else 'private'}, {form}) referenced {where}"
+        ex = classes[sorted(classes)[0]]
+        cli = "; ".join(ex["commands"])
+        if set(classes) >= demanded.get((where, kind, public, form), set()) and len(classes) > 1:
             ctx.violation(f"{head} through every import shape ({'/'.join(sorted(classes))}): {what}", ex, cli_cmd=cli)
         else:
             for gc in sorted(classes):
-                ctx.violation(f"{head} through a {gc} import: {what}", classes[gc], cli_cmd=cli)
+                ctx.violation(f"{head} through a {gc} import: {what}", classes[gc], cli_cmd="; ".join(classes[gc]["commands"]))
     # a dying tool is attributed to the smallest import graphs that kill it (every sub-graph is enumerated too)
     for (nf, g, tool, k), detail in sorted(crashes.items(), key=lambda kv: (kv[0][0], len(kv[0][1]), sorted(kv[0][1]), kv[0][2])):
         if any(nf2 <= nf and g2 < g and tool2 == tool for (nf2, g2, tool2, k2) in crashes):
@@ -277,7 +316,7 @@ def run(ctx):
     ctx.bound("programs", len(cases))
     for i in (0, len(cases) // 2, len(cases) - 1):
         c = cases[i]
-        ctx.sample({"graph": sorted(f"{FILES[a]} -> {FILES[b]} ({s})" for (a, b), s in c["graph"].items()), "reference": ref_line(c), "visible": visible(c["graph"], c["target"], c["public"], c["form"]),
-                    "main.gdn": res[i]["files"]["main.gdn"]})
-    return ("every import graph over the files (every subset of directed edges, every as/bare choice per edge) x every (file, item, access form) reference from main, one reference per "
-            "program, each run through `garden check --json` and `garden run`. Non-trivial = programs with at least one import.")
+        ctx.sample({"graph": gdesc(c["graph"]), "reference_in": FILES[c["site"]], "visible": visible(c["graph"], c["site"], c["target"], c["public"], c["form"]), "files": res[i]["files"]})
+    return ("every import graph over the files (every subset of directed edges, every as/unqualified choice per edge) x every (file, item, access form) reference from main, plus one "
+            "function reference from every imported file to every file it imports; one reference per program, each run through `garden check --json` (on the file holding the "
+            "reference) and `garden run main.gdn`. Non-trivial = programs with at least one import.")
